@@ -87,5 +87,25 @@ mut('c05-alpha-mask-offset', 'C05', AD, "for letter in section[0][current_start:
 mut('c05-other-swallows-digit', 'C05', DR + 'digit_detection.py', "        if value.isdigit():", "        if value.isdigit() and value != '0':", more=[(DR + 'digit_detection.py', "if not value.isdigit() or pos ==", "if not (value.isdigit() and value != '0') or pos ==", 0)])
 mut('c05-website-keeps-case', 'C05', DR + 'website_detection.py', "parsing.append((working_string[start_of_url:end_of_url],'W'))", "parsing.append((section[0][start_of_url:end_of_url],'W'))", desc='W segment kept in original case although the property says website segments are kept lower-cased')
 mut('c05-prince-counts-twice', 'C05', 'lib_trainer/prince_metrics.py', "count_prince[item[1]] += 1", "count_prince[item[1]] += 1 if item[1][0] != 'Y' else 2")
+# ---- C19
+TFI = 'lib_trainer/trainer_file_input.py'
+M.append({'name': 'revert-F-C19', 'props': ['C19'], 'benign': False, 'desc': 'codec readline pieces no longer re-joined',
+          'edits': [{'file': TFI, 'find': "while password and password[-1] not in '\\r\\n':", 'repl': "while False:", 'nth': 0}]})
+mut('revert-F-C07a', ['C19'], TFI, 'if u"\\u2029" in input_password:', 'if False:')
+mut('c19-rstrip-all', 'C19', TFI, "clean_password = password.rstrip('\\r\\n')", "clean_password = password.rstrip()")
+mut('c19-hex-wrong-encoding', 'C19', TFI, "clean_password = bytes.fromhex(clean_password[5:-1]).decode(self.encoding)", "clean_password = bytes.fromhex(clean_password[5:-1]).decode('utf-8')")
+mut('c19-yield-n-minus-1', 'C19', TFI, "for x in range(0, n):", "for x in range(0, n if n < 3 else n - 1):")
+mut('c19-pass3-no-prefix', 'C19', RT, "                    program_info['prefixcount'])", "                    False)", nth=2)
+mut('c19-dup-detection-skips', 'C19', TFI, "self.num_passwords += n", "self.num_passwords += 1")
+mut('c19-prefix-lstrip-password', 'C19', TFI, "clean_password = ' '.join(clean_password.lstrip().split(' ')[1:])", "clean_password = ' '.join(clean_password.lstrip().split(' ')[1:]).lstrip()")
+# ---- C07
+mut('revert-F-C07a-c07', 'C07', TFI, 'if u"\\u2029" in input_password:', 'if False:')
+mut('revert-F-C07b', ['C07'], 'lib_scorer/omen_scorer.py', "with open(full_file_path, 'r', encoding=self.encoding) as file:", "with open(full_file_path, 'r') as file:", nth=0)
+mut('c07-guesser-strip', 'C07', GIO, 'split_values = line.rstrip().split("\\t")', 'split_values = line.strip().split("\\t")')
+mut('c07-scorer-strip', 'C07', 'lib_scorer/grammar_io.py', 'split_values = value.rstrip().split("\\t")', 'split_values = value.strip().split("\\t")')
+mut('c07-trainer-strips-value', 'C07', 'lib_trainer/save_pcfg_data.py', "datafile.write(str(item[0]) + '\\t' + str(item[1])+'\\n')", "datafile.write(str(item[0]).strip() + '\\t' + str(item[1])+'\\n')")
+mut('c07-omen-loader-strip', 'C07', 'lib_guesser/omen/input_file_io.py', "line = line.rstrip('\\n\\r').split('\\t')", "line = line.strip().split('\\t')")
+mut('c07-valid-allows-nel', 'C07', TFI, 'if u"\\u0085" in input_password:', 'if False:')
+mut('c07-config-stale-filelist', ['C07', 'C06'], 'lib_trainer/config_file.py', 'filenames[i] = str(name) + ".txt"', 'filenames[i] = str(name if name < 7 else 7) + ".txt"')
 json.dump(M, open(os.path.join(os.path.dirname(os.path.abspath(__file__)), 'mutants.json'), 'w'), indent=1)
 print(len(M), 'mutants')
